@@ -7,7 +7,7 @@
    backed by an observation OW x t in tr; so is every queued Watch request; every queued or in-flight
    notice "w terminated" in the mailbox of an object at address x is backed by OW x w in tr or by an object
    with address w whose parent is x. *)
-From MV Require Import Lib.ListX Kernel.Model Kernel.Lifecycle Kernel.Status Kernel.Registry.
+From MV Require Import Lib.ListX Kernel.Model Kernel.Lifecycle Kernel.Status Kernel.Registry Kernel.Frame Kernel.Queue.
 Open Scope Z_scope.
 
 Definition msgs (a : actor) : list (env smsg) :=
@@ -31,7 +31,9 @@ Definition good (s : kstate) (tok : ref) (e : env smsg) : Prop :=
 
 Definition WIa (s : kstate) (a : actor) : Prop :=
   (forall x, In x (a_watchers a) -> In (OW x (a_tok a)) tr) /\
-  (forall e, In e (msgs a) -> good s (a_tok a) e).
+  (forall e, In e (msgs a) -> good s (a_tok a) e) /\
+  (* every user message in flight or queued at an object is addressed to that object's own address *)
+  (forall e, In e (seq a) -> e_rcv e = a_tok a).
 
 Definition WI (s : kstate) : Prop := RI s /\ forall u a, get s u = Some a -> WIa s a.
 
@@ -69,14 +71,16 @@ Lemma WI_step s s' :
   (forall u a', get s' u = Some a' ->
      WIa s' a' \/
      exists a, get s u = Some a /\ a_tok a' = a_tok a /\ incl (a_watchers a') (a_watchers a) /\
-               (forall e, In e (msgs a') -> interesting e = true -> In e (msgs a))) ->
+               (forall e, In e (msgs a') -> interesting e = true -> In e (msgs a)) /\
+               (forall e, In e (seq a') -> In e (seq a))) ->
   WI s'.
 Proof.
-  intros [_ HW] HR K H. split; [exact HR|]. intros u a' Hg. destruct (H u a' Hg) as [Hd|(a & Ha & Ht & Hw & Hm)]; [exact Hd|].
-  destruct (HW u a Ha) as [W1 W2]. split.
+  intros [_ HW] HR K H. split; [exact HR|]. intros u a' Hg. destruct (H u a' Hg) as [Hd|(a & Ha & Ht & Hw & Hm & Hq)]; [exact Hd|].
+  destruct (HW u a Ha) as [W1 [W2 W3]]. split; [|split].
   - intros x Hx. rewrite Ht. apply W1. apply Hw. exact Hx.
   - intros e He. destruct (interesting e) eqn:Ei; [|apply good_plain; exact Ei].
     rewrite Ht. eapply good_idk; [exact K|]. apply W2. apply Hm; assumption.
+  - intros e He. rewrite Ht. apply W3. apply Hq. exact He.
 Qed.
 
 Lemma RI_put s u a0 b : RI s -> get s u = Some a0 -> a_tok b = a_tok a0 -> RI (put s u b).
@@ -98,30 +102,33 @@ Lemma WI_put s u a0 b :
   WI s -> get s u = Some a0 -> a_tok b = a_tok a0 -> a_parent b = a_parent a0 ->
   (forall x, In x (a_watchers b) -> In x (a_watchers a0) \/ In (OW x (a_tok a0)) tr) ->
   (forall e, In e (msgs b) -> In e (msgs a0) \/ good s (a_tok a0) e) ->
+  (forall e, In e (seq b) -> In e (seq a0) \/ e_rcv e = a_tok a0) ->
   WI (put s u b).
 Proof.
-  intros HW Hu Ht Hp Hws Hms. pose proof (idk_put s u a0 b Hu Ht Hp) as K.
+  intros HW Hu Ht Hp Hws Hms Hqs. pose proof (idk_put s u a0 b Hu Ht Hp) as K.
   split; [eapply RI_put; [apply HW|exact Hu|exact Ht]|]. destruct HW as [HR HW].
   intros v a' Hg. destruct (Nat.eq_dec u v) as [->|Hne].
-  - rewrite (get_put_same s v b a0 Hu) in Hg. inversion Hg; subst a'. destruct (HW v a0 Hu) as [W1 W2]. split.
+  - rewrite (get_put_same s v b a0 Hu) in Hg. inversion Hg; subst a'. destruct (HW v a0 Hu) as [W1 [W2 W3]]. split; [|split].
     + intros x Hx. rewrite Ht. destruct (Hws x Hx) as [H|H]; [apply W1; exact H|exact H].
     + intros e He. rewrite Ht. eapply good_idk; [exact K|]. destruct (Hms e He) as [H|H]; [apply W2; exact H|exact H].
-  - rewrite get_put_other in Hg by assumption. destruct (HW v a' Hg) as [W1 W2]. split; [exact W1|].
+    + intros e He. rewrite Ht. destruct (Hqs e He) as [H|H]; [apply W3; exact H|exact H].
+  - rewrite get_put_other in Hg by assumption. destruct (HW v a' Hg) as [W1 [W2 W3]]. split; [exact W1|]. split; [|exact W3].
     intros e He. eapply good_idk; [exact K|]. apply W2. exact He.
 Qed.
 
 Lemma WI_upd_actor s u f :
   (forall a, a_tok (f a) = a_tok a /\ a_parent (f a) = a_parent a /\ incl (a_watchers (f a)) (a_watchers a) /\
-             (forall e, In e (msgs (f a)) -> In e (msgs a) \/ interesting e = false)) ->
+             (forall e, In e (msgs (f a)) -> In e (msgs a) \/ interesting e = false) /\
+             (forall e, In e (seq (f a)) -> In e (seq a))) ->
   WI s -> WI (upd_actor s u f).
 Proof.
   intros Hf HW. unfold upd_actor. destruct (get s u) as [a0|] eqn:E; [|exact HW].
-  destruct (Hf a0) as (H1 & H2 & H3 & H4). eapply WI_put; eauto.
+  destruct (Hf a0) as (H1 & H2 & H3 & H4 & H5). eapply WI_put; eauto.
   intros e He. destruct (H4 e He) as [H|H]; [left; exact H|right; apply good_plain; exact H].
 Qed.
 
 (* a tactic for the many updates that do not touch the watcher table or the system queue *)
-Ltac wp := intros; split; [reflexivity|split; [reflexivity|split; [apply incl_refl|intros ? ?; left; assumption]]].
+Ltac wp := intros; split; [reflexivity|split; [reflexivity|split; [apply incl_refl|split; [intros ? ?; left; assumption|intros ? Hq; exact Hq]]]].
 
 Lemma msgs_push a e : msgs (w_sysq (a_sysq a ++ [e]) a) = msgs a ++ [e].
 Proof. unfold msgs. cbn [a_inflight a_sysq w_sysq]. rewrite app_assoc. reflexivity. Qed.
@@ -129,7 +136,7 @@ Proof. unfold msgs. cbn [a_inflight a_sysq w_sysq]. rewrite app_assoc. reflexivi
 Lemma WI_push_plain s u e : interesting e = false -> WI s -> WI (push_sys s u e).
 Proof.
   intros Hi. unfold push_sys. apply WI_upd_actor. intros a. unfold interesting in Hi.
-  destruct (e_msg e) eqn:Em; try discriminate; try (split; [reflexivity|split; [reflexivity|split; [apply incl_refl|]]]);
+  destruct (e_msg e) eqn:Em; try discriminate; try (split; [reflexivity|split; [reflexivity|split; [apply incl_refl|split; [|intros ? Hq; exact Hq]]]]);
     try (intros e0 H0; left; exact H0);
     (intros e0 H0; rewrite msgs_push in H0; apply in_app_or in H0; destruct H0 as [H0|[H0|[]]]; [left; exact H0|right; subst e0; unfold interesting; rewrite Em; reflexivity]).
 Qed.
@@ -139,7 +146,7 @@ Proof.
   intros Hu Hg HW. destruct (interesting e) eqn:Ei; [|apply WI_push_plain; assumption].
   unfold push_sys, upd_actor. rewrite Hu. unfold interesting in Ei.
   destruct (e_msg e) eqn:Em; try discriminate;
-    (eapply WI_put; [exact HW|exact Hu|reflexivity|reflexivity|intros x Hx; left; exact Hx|];
+    (eapply WI_put; [exact HW|exact Hu|reflexivity|reflexivity|intros x Hx; left; exact Hx| |intros e1 H1; left; exact H1];
      intros e0 H0; rewrite msgs_push in H0; apply in_app_or in H0; destruct H0 as [H0|[H0|[]]]; [left; exact H0|right; subst e0; exact Hg]).
 Qed.
 
@@ -170,16 +177,25 @@ Proof.
 Qed.
 
 Lemma WI_to_sub s : WI s -> WI (to_sub s).
-Proof. unfold to_sub. destruct (lookup rSub (registry s)); [apply WI_upd_actor; wp|auto]. Qed.
+Proof.
+  intros HW. unfold to_sub. destruct (lookup rSub (registry s)) as [u|] eqn:El; [|exact HW].
+  pose proof HW as [HR _]. destruct (HR rSub u El) as (a & Ha & Ht). unfold upd_actor. rewrite Ha.
+  eapply WI_put; [exact HW|exact Ha|reflexivity|reflexivity|intros x Hx; left; exact Hx|intros e He; left; exact He|].
+  intros e He. unfold seq, inflight_user in *. cbn [a_inflight a_userq w_userq] in He. rewrite app_assoc in He.
+  apply in_app_or in He. destruct He as [He|[He|[]]]; [left; exact He|right; subst e; cbn [e_rcv mk_env]; congruence].
+Qed.
 Lemma WI_abyss_user s snd rcv m s' o : abyss_user s snd rcv m = (s', o) -> WI s -> WI s'.
 Proof.
   unfold abyss_user. destruct m; intros H; inversion H; subst; auto; destruct (rcv =? rSub); auto; apply WI_to_sub.
 Qed.
 Lemma WI_deliver_user s t snd m s' o : deliver_user s t snd m = (s', o) -> WI s -> WI s'.
 Proof.
-  unfold deliver_user. destruct (lookup t (registry s)) as [u|]; [|apply WI_abyss_user].
+  unfold deliver_user. destruct (lookup t (registry s)) as [u|] eqn:El; [|apply WI_abyss_user].
   destruct (get s u) as [a|] eqn:E; [|apply WI_abyss_user].
-  intros H HW; inversion H; subst. eapply WI_put; [exact HW|exact E|reflexivity|reflexivity|intros x Hx; left; exact Hx|intros e He; left; exact He].
+  intros H HW; inversion H; subst. pose proof HW as [HR _]. destruct (HR t u El) as (a1 & Ha1 & Ht). rewrite E in Ha1. inversion Ha1; subst a1.
+  eapply WI_put; [exact HW|exact E|reflexivity|reflexivity|intros x Hx; left; exact Hx|intros e He; left; exact He|].
+  intros e He. unfold seq, inflight_user in *. cbn [a_inflight a_userq w_userq] in He. rewrite app_assoc in He.
+  apply in_app_or in He. destruct He as [He|[He|[]]]; [left; exact He|right; subst e; cbn [e_rcv mk_env]; congruence].
 Qed.
 Lemma WI_terminate s self t g s' o : terminate s self t g = (s', o) -> WI s -> WI s'.
 Proof.
@@ -214,7 +230,7 @@ Proof.
   intros Ea Er [HR HW]. assert (G : forall u, get s' u = get s u) by (intros u; unfold get; rewrite Ea; reflexivity).
   split.
   - intros t u H. rewrite Er in H. rewrite G. apply HR. exact H.
-  - intros u a Hg. rewrite G in Hg. destruct (HW u a Hg) as [W1 W2]. split; [exact W1|].
+  - intros u a Hg. rewrite G in Hg. destruct (HW u a Hg) as [W1 [W2 W3]]. split; [exact W1|]. split; [|exact W3].
     intros e He. eapply good_idk; [|apply W2; exact He]. intros c ac Hc. exists ac. rewrite G. auto.
 Qed.
 
@@ -230,11 +246,11 @@ Proof.
       unfold get, s2, set_actors; cbn [actors]. rewrite nth_error_app1; [exact Ha|]. apply nth_error_Some. unfold get in Ha. congruence.
     - intros v a Hg. unfold get, s2, set_actors in Hg; cbn [actors] in Hg.
       destruct (Nat.lt_ge_cases v (length (actors s1))) as [Hlt|Hge].
-      + rewrite nth_error_app1 in Hg by exact Hlt. destruct (HW1 v a Hg) as [A1 A2]. split; [exact A1|].
+      + rewrite nth_error_app1 in Hg by exact Hlt. destruct (HW1 v a Hg) as [A1 [A2 A3]]. split; [exact A1|]. split; [|exact A3].
         intros e He. eapply good_idk; [|apply A2; exact He]. intros c ac Hc. exists ac. split; [|auto].
         unfold get, s2, set_actors; cbn [actors]. rewrite nth_error_app1; [exact Hc|]. apply nth_error_Some. unfold get in Hc. congruence.
       + rewrite nth_error_app2 in Hg by exact Hge. destruct (v - length (actors s1))%nat as [|k]; cbn in Hg.
-        * inversion Hg; subst a. split; [intros x []|intros e []].
+        * inversion Hg; subst a. split; [intros x []|split; intros e []].
         * destruct k; discriminate. }
   destruct (lookup t (registry s2)).
   - intros H; inversion H; subst. exact W2.
@@ -244,7 +260,7 @@ Proof.
       * inversion H0; subst v. apply Z.eqb_eq in Et. subst t0. exists (new_actor t self r inst). split; [|reflexivity].
         unfold get, s2, set_actors, set_registry; cbn [actors]. rewrite nth_error_app2 by apply Nat.le_refl. rewrite Nat.sub_diag. reflexivity.
       * destruct W2 as [HR2 _]. apply HR2. eapply lookup_remove_key. exact H0.
-    + intros v a' Hg. right. exists a'. split; [exact Hg|]. split; [reflexivity|]. split; [apply incl_refl|auto].
+    + intros v a' Hg. right. exists a'. split; [exact Hg|]. split; [reflexivity|]. split; [apply incl_refl|]. split; auto.
 Qed.
 
 Lemma WI_escalate s u r s' o p : escalate s u r = (s', o, p) -> WI s -> WI s'.
@@ -337,7 +353,7 @@ Lemma WI_set_registry s r' :
 Proof.
   intros Hr [HR HW]. split.
   - intros t v H. apply (HR t v). apply Hr. exact H.
-  - intros u a Hg. destruct (HW u a Hg) as [W1 W2]. split; [exact W1|].
+  - intros u a Hg. destruct (HW u a Hg) as [W1 [W2 W3]]. split; [exact W1|]. split; [|exact W3].
     intros e He. eapply good_idk; [|apply W2; exact He]. intros c ac Hc. exists ac. auto.
 Qed.
 
@@ -474,10 +490,10 @@ Proof.
     destruct (st_ge_terminating (a_st a)).
     + intros H _ HW; inversion H; subst. apply WI_deliver_term; [|exact HW]. right. left. exact Hg.
     + intros H _ HW; inversion H; subst. unfold upd_actor. rewrite Ea.
-      eapply WI_put; [exact HW|exact Ea|reflexivity|reflexivity| |intros e0 H0; left; exact H0].
+      eapply WI_put; [exact HW|exact Ea|reflexivity|reflexivity| |intros e0 H0; left; exact H0|intros e1 H1; left; exact H1].
       cbn [a_watchers w_watchers]. intros x Hx. destruct (in_insert_sorted _ _ _ Hx) as [->|Hx']; [right; exact Hg|left; exact Hx'].
   - (* SUnwatch *) intros H _ HW; inversion H; subst. apply WI_upd_actor; [|exact HW].
-    intros b. split; [reflexivity|split; [reflexivity|split; [cbn [a_watchers w_watchers]; apply incl_remove_ref|intros e0 H0; left; exact H0]]].
+    intros b. split; [reflexivity|split; [reflexivity|split; [cbn [a_watchers w_watchers]; apply incl_remove_ref|split; [intros e0 H0; left; exact H0|intros e1 H1; exact H1]]]].
   - intros H; inversion H; subst; auto.
   - intros H; inversion H; subst; auto.
 Qed.
@@ -501,15 +517,16 @@ Proof.
   intros H Hi HW.
   set (s0 := upd_actor s u (w_inflight None)) in *.
   assert (W0 : WI s0).
-  { unfold s0. apply WI_upd_actor; [|exact HW]. intros b. split; [reflexivity|split; [reflexivity|split; [apply incl_refl|]]].
-    intros e0 H0. left. unfold msgs in *. cbn [a_inflight a_sysq w_inflight] in H0. apply in_or_app. right. exact H0. }
+  { unfold s0. apply WI_upd_actor; [|exact HW]. intros b. split; [reflexivity|split; [reflexivity|split; [apply incl_refl|split]]].
+    - intros e0 H0. left. unfold msgs in *. cbn [a_inflight a_sysq w_inflight] in H0. apply in_or_app. right. exact H0.
+    - intros e0 H0. unfold seq, inflight_user in *. cbn [a_inflight a_userq w_inflight] in H0. apply in_or_app. right. exact H0. }
   assert (Ea0 : get s0 u = Some (w_inflight None a)) by (apply get_upd_actor_same; exact Ea).
   assert (K0 : idk s s0) by (unfold s0, upd_actor; rewrite Ea; eapply idk_put; [exact Ea|reflexivity|reflexivity]).
   assert (P : forall s1 o1 p1, (match m with MS e => process_sys roles s0 u e | MU e => process_user roles s0 u e end) = (s1, o1, p1) ->
               incl o1 tr -> WI s1).
   { intros s1 o1 p1 E Hi1. destruct m as [e|e].
     - eapply WI_process_sys; [exact Ea0| |exact E|exact Hi1|exact W0]. cbn [a_tok w_inflight].
-      eapply good_idk; [exact K0|]. destruct HW as [_ HW0]. destruct (HW0 u a Ea) as [_ W2]. apply W2.
+      eapply good_idk; [exact K0|]. destruct HW as [_ HW0]. destruct (HW0 u a Ea) as [_ [W2 _]]. apply W2.
       unfold msgs. rewrite Em. left. reflexivity.
     - eapply WI_process_user; [exact E|exact Hi1|exact W0]. }
   destruct (match m with MS e => process_sys roles s0 u e | MU e => process_user roles s0 u e end) as [[s1 o1] p1] eqn:E.
@@ -546,7 +563,7 @@ Proof.
   - intros c ac Hc. exists (pop1 ac). rewrite get_normalize, Hc. destruct (pop1_id ac) as (I1 & I2 & _). auto.
   - intros v a' Hg. rewrite get_normalize in Hg. destruct (get s v) as [a|] eqn:Ea; [|discriminate]. inversion Hg; subst a'.
     right. exists a. split; [reflexivity|]. destruct (pop1_id a) as (I1 & _). split; [exact I1|].
-    split; [rewrite pop1_watchers; apply incl_refl|]. intros e He _. rewrite msgs_pop1 in He. exact He.
+    split; [rewrite pop1_watchers; apply incl_refl|]. split; [intros e He _; rewrite msgs_pop1 in He; exact He|intros e He; rewrite seq_pop1 in He; exact He].
 Qed.
 
 Theorem kstep_WI s l s' o : kstep roles s l = Some (s', o) -> incl o tr -> WI s -> WI s'.
@@ -582,7 +599,7 @@ Qed.
 Lemma WI_init : WI kinit.
 Proof.
   split; [apply RI_init|]. intros u a H. destruct u as [|[|u]]; cbn in H; try (destruct u; discriminate);
-    inversion H; subst; (split; [intros x []|intros e []]).
+    inversion H; subst; (split; [intros x []|split; intros e []]).
 Qed.
 
 End W.
@@ -847,7 +864,7 @@ Proof.
   destruct l; cbn [kstep] in Hstep.
   - destruct (run_actor roles s (Z.to_nat u)) as [[s1 o1]|] eqn:E; [|discriminate]. inversion Hstep; subst.
     destruct (run_actor_tto _ _ _ _ _ _ _ _ _ E Hin) as (a & e & Ha & Hi & Hm & Hx & Hne).
-    destruct HW as [_ HW0]. destruct (HW0 _ a Ha) as [_ W2].
+    destruct HW as [_ HW0]. destruct (HW0 _ a Ha) as [_ [W2 _]].
     assert (G : good (concat os) s (a_tok a) e) by (apply W2; unfold msgs; rewrite Hi; left; reflexivity).
     unfold good in G. rewrite Hm in G. subst x. destruct G as [G|G]; [contradiction|exact G].
   - destruct (next_serial s) as [s1 k]. destruct (deliver_user s1 t rNone (UProbe n k)) as [s2 o2] eqn:E.
@@ -866,3 +883,13 @@ Proof.
 Qed.
 
 End O.
+
+(* by-product of the invariant: in every state reachable from the fresh system, every user message in flight or queued
+   at an actor object is addressed to that object's own address *)
+Theorem addressed_reachable roles ls s os :
+  krun roles kinit ls = Some (s, os) -> forall u a e, get s u = Some a -> In e (seq a) -> e_rcv e = a_tok a.
+Proof.
+  intros Hrun u a e Ha He.
+  assert (HW : WI (concat os) s) by (eapply krun_WI; [exact Hrun|apply incl_refl|apply WI_init]).
+  destruct HW as [_ HW0]. destruct (HW0 u a Ha) as (_ & _ & W3). apply W3. exact He.
+Qed.
